@@ -60,7 +60,7 @@ def r1_cross_wiring(ctx):
     if len(chans) == 2:
         c0, c1 = canon(chans[0]), canon(chans[1])
         def has_dup(c):
-            if any(x[0] == 'call' and x[1] == 'des::net::channel::Channel::dup' for x in walk(c)):
+            if any(x[0] in ('call', 'fnitem') and x[1] == 'des::net::channel::Channel::dup' for x in walk(c)):
                 return True
             for x in walk(c):
                 if x[0] == 'agg' and x[1].startswith('closure:'):
